@@ -9,7 +9,7 @@ Theorem C05_lnotab_pre36 : forall v first codelen tab, tuple_ltb v [3; 6] = true
   findlinestarts_lnotab (Some v) false first codelen tab = spec_findlinestarts_pre36 first codelen tab.
 Proof.
   intros v first cl tab Hv. destruct tab as [|a tab]; [reflexivity|].
-  rewrite findlinestarts_lnotab_spec by discriminate. unfold spec_findlinestarts_pre36.
+  rewrite findlinestarts_lnotab_spec. unfold spec_findlinestarts_pre36.
   destruct (lt36_flags v Hv) as [-> ->]. reflexivity.
 Qed.
 
@@ -17,14 +17,14 @@ Theorem C05_lnotab_36_37 : forall v first codelen tab, v = [3; 6] \/ v = [3; 7] 
   findlinestarts_lnotab (Some v) false first codelen tab = spec_findlinestarts_36_37 first codelen tab.
 Proof.
   intros v first cl tab Hv. destruct tab as [|a tab]; [reflexivity|].
-  rewrite findlinestarts_lnotab_spec by discriminate. destruct Hv as [-> | ->]; reflexivity.
+  rewrite findlinestarts_lnotab_spec. destruct Hv as [-> | ->]; reflexivity.
 Qed.
 
 Theorem C05_lnotab_38_39 : forall v first codelen tab, v = [3; 8] \/ v = [3; 9] ->
   findlinestarts_lnotab (Some v) false first codelen tab = spec_findlinestarts_38_39 first codelen tab.
 Proof.
   intros v first cl tab Hv. destruct tab as [|a tab]; [reflexivity|].
-  rewrite findlinestarts_lnotab_spec by discriminate. destruct Hv as [-> | ->]; reflexivity.
+  rewrite findlinestarts_lnotab_spec. destruct Hv as [-> | ->]; reflexivity.
 Qed.
 
 (* 3.10 range table: co_lines() is lineiter_next's sequence, for every even-length table *)
